@@ -7,7 +7,7 @@ QUOTES = "('`' in name or '\"' in name or \"'\" in name)"
 EQ_HASH = lambda cls, key: [
     Contract(
         M + cls + ".__eq__",
-        props=["C16", "C06"],
+        props=["C16", "C06", "C08"],
         params={"other": "Any"},
         ensures={"equal_iff_same_class_and_same_printed_name": f"result == (isinstance(other, {cls}) and {key('self')} == {key('other')})"},
         modifies=[],
@@ -15,7 +15,7 @@ EQ_HASH = lambda cls, key: [
     ),
     Contract(
         M + cls + ".__hash__",
-        props=["C16", "C06"],
+        props=["C16", "C06", "C08"],
         ensures={"hash_is_a_function_of_the_printed_name": f"result == hash({key('self')})"},
         modifies=[],
         at_calls=False,
@@ -95,12 +95,12 @@ CONTRACTS = (
     + [
         Contract(
             M + "Column.__eq__",
-            props=["C16", "C06", "C04"],
+            props=["C16", "C06", "C04", "C08"],
             params={"other": "Any"},
             ensures={"equal_iff_same_printed_name_and_same_owner": "result == (isinstance(other, Column) and str(self) == str(other) and self.parent == other.parent)"},
             modifies=[],
             at_calls=False,
         ),
-        Contract(M + "Column.__hash__", props=["C16", "C06"], ensures={"hash_is_a_function_of_the_printed_name": "result == hash(str(self))"}, modifies=[], at_calls=False),
+        Contract(M + "Column.__hash__", props=["C16", "C06", "C08"], ensures={"hash_is_a_function_of_the_printed_name": "result == hash(str(self))"}, modifies=[], at_calls=False),
     ]
 )
